@@ -198,7 +198,7 @@ def verify_unit(unit, world_factory, timeout_s=10, max_paths=4000):
         # reachability of the completed path (vacuity guard d)
         s = z3.Solver()
         s.set('timeout', 5000)
-        for f in ctx.pc:
+        for f in ctx.pc_assumed:       # obligations assumed along the way must not make a path look unreachable
             s.add(f)
         reach = s.check()
         if reach == z3.unsat:
